@@ -115,6 +115,16 @@ static inline Domain product(const std::string& name, std::vector<Domain> subs) 
 static inline Domain func(const std::string& name, uint64_t size, int words, void (*f)(uint64_t, uint64_t*), bool exhaustive = false) {
   Domain d; d.name = name; d.kind = Domain::FUNC; d.size = size; d.words = words; d.func = f; d.exhaustive = exhaustive; return d;
 }
+// sub-lattice stride of a capped run: the smallest s >= ceil(size/cap) that is coprime to the size of every factor of a product domain,
+// so that the strided index sequence still meets every value of every coordinate (a stride sharing a factor with a coordinate's size
+// would skip the same residues of that coordinate for ever)
+static inline uint64_t gcd64(uint64_t a, uint64_t b) { while (b) { uint64_t t = a % b; a = b; b = t; } return a; }
+static inline uint64_t cap_stride(const Domain& d, uint64_t cap) {
+  if (!cap || d.size <= cap) return 1;
+  uint64_t s = (d.size + cap - 1) / cap;
+  if (d.kind != Domain::PRODUCT) return s;
+  for (;; ++s) { bool ok = true; for (const Domain& f : d.subs) if (f.size > 1 && gcd64(s, f.size) != 1) { ok = false; break; } if (ok) return s; }
+}
 
 // ------------------------------------------------------------------- outcomes
 struct Outcome {
@@ -164,7 +174,7 @@ struct Engine {
   std::vector<std::string> assumptions;
   std::map<std::string, std::string> extra_json;  // driver specific evidence keys (raw JSON values)
   double deadline_s = 2400;
-  uint64_t cap = 0; bool quiet = false;   // cap: domains larger than this are enumerated on the sub-lattice {0, s, 2s, ...} with s = ceil(size/cap) (differential / sanitizer runs)
+  uint64_t cap = 0; bool quiet = false; bool foreign = false;   // foreign: the run serves another property's oracle (cross-build digests, sanitizer reports); this driver's own oracle verdicts are not judged, so they need not replay   // cap: domains larger than this are enumerated on the sub-lattice {0, s, 2s, ...} with s = ceil(size/cap) (differential / sanitizer runs)
   int nthreads = 0;
 
   Op& add(const std::string& name, CheckFn fn) { ops.emplace_back(); ops.back().name = name; ops.back().fn = fn; return ops.back(); }
@@ -193,6 +203,7 @@ struct Engine {
       else if (a == "--config") config = next();
       else if (a == "--cap") cap = std::strtoull(next().c_str(), nullptr, 10);
       else if (a == "--quiet") quiet = true;
+      else if (a == "--foreign-oracle") foreign = true;
       else if (a == "--dump-op") dump_op = next();
       else if (a == "--dump-file") dump_file = next();
       else if (a == "--show-index") show_index = next();
@@ -210,10 +221,10 @@ struct Engine {
     for (auto& op : ops) if (op.name == name) {
       const std::vector<Domain>& doms = (tier == "thorough" && !op.thorough.empty()) ? op.thorough : op.quick;
       if (!show.empty()) { size_t d = std::strtoull(show.c_str(), nullptr, 10); uint64_t i = std::strtoull(show.substr(show.find(':') + 1).c_str(), nullptr, 10);
-        if (d >= doms.size()) return 2; const uint64_t sc = (cap && doms[d].size > cap) ? (doms[d].size + cap - 1) / cap : 1; if (i * sc >= doms[d].size) return 2; Case c; c.n = doms[d].words; Outcome o; doms[d].at(i * sc, c.w); o.reset(); op.fn(c, o);
+        if (d >= doms.size()) return 2; const uint64_t sc = cap_stride(doms[d], cap); if (i * sc >= doms[d].size) return 2; Case c; c.n = doms[d].words; Outcome o; doms[d].at(i * sc, c.w); o.reset(); op.fn(c, o);
         std::printf("{\"in\": %s, \"got\": %s, \"digest\": \"0x%" PRIx64 "\"}\n", hexes(c.w, c.n).c_str(), hexes(o.got, o.ngot).c_str(), o.case_digest()); return 0; }
       FILE* f = std::fopen(file.c_str(), "wb"); if (!f) return 2;
-      for (size_t d = 0; d < doms.size(); ++d) { const uint64_t sc = (cap && doms[d].size > cap) ? (doms[d].size + cap - 1) / cap : 1; const uint64_t nn = (doms[d].size + sc - 1) / sc; std::vector<uint64_t> buf(nn);
+      for (size_t d = 0; d < doms.size(); ++d) { const uint64_t sc = cap_stride(doms[d], cap); const uint64_t nn = (doms[d].size + sc - 1) / sc; std::vector<uint64_t> buf(nn);
         std::vector<std::thread> th; std::atomic<uint64_t> nx(0); const uint64_t CH = 4096;
         for (int t = 0; t < nthreads; ++t) th.emplace_back([&]() { Case c; c.n = doms[d].words; Outcome o; for (;;) { uint64_t lo = nx.fetch_add(CH); if (lo >= nn) break; uint64_t hi = std::min(nn, lo + CH); for (uint64_t i = lo; i < hi; ++i) { doms[d].at(i * sc, c.w); o.reset(); op.fn(c, o); buf[i] = o.case_digest(); } } });
         for (auto& t : th) t.join(); std::fwrite(buf.data(), 8, buf.size(), f); }
@@ -241,20 +252,33 @@ struct Engine {
     std::fprintf(stderr, "glmx: replay: unknown op %s\n", rop.c_str()); return 2;
   }
 
+  // the x87 tag word must say "all registers empty" between cases: a long double oracle computed on a polluted stack returns NaN
+  static bool x87_clean() {
+#if defined(__x86_64__) || defined(__i386__)
+    unsigned short env[14]; __asm__ volatile("fnstenv %0\n\tfldenv %0" : "+m"(env)); return env[4] == 0xffff;
+#else
+    return true;
+#endif
+  }
+  // --only: op-name substrings separated by ";;" (any of them selects the op)
+  static bool selected(const std::string& only, const std::string& name) {
+    if (only.empty()) return true; size_t p = 0;
+    while (true) { size_t q = only.find(";;", p); std::string t = only.substr(p, q == std::string::npos ? std::string::npos : q - p); if (!t.empty() && name.find(t) != std::string::npos) return true; if (q == std::string::npos) return false; p = q + 2; } }
   int run(const std::string& tier, const std::string& out, const std::string& only) {
     auto t0 = std::chrono::steady_clock::now();
     auto elapsed = [&]() { return std::chrono::duration<double>(std::chrono::steady_clock::now() - t0).count(); };
     std::map<std::string, Witness> viol, known;   // key: op|vclass|kf
+    std::atomic<bool> x87_dirty(false);
     std::vector<OpStats> stats(ops.size());
     bool all_complete = true; uint64_t tot_eval = 0, tot_nontriv = 0;
 
     for (size_t oi = 0; oi < ops.size(); ++oi) {
       Op& op = ops[oi]; OpStats& st = stats[oi];
-      if (!only.empty() && op.name.find(only) == std::string::npos) continue;
+      if (!selected(only, op.name)) continue;
       const std::vector<Domain>& doms = (tier == "thorough" && !op.thorough.empty()) ? op.thorough : op.quick;
       st.cls.assign(op.classes.size() + 1, 0);
       for (const Domain& dom0 : doms) {
-        const uint64_t stridecap = (cap && dom0.size > cap) ? (dom0.size + cap - 1) / cap : 1;
+        const uint64_t stridecap = cap_stride(dom0, cap);
         Domain dom = dom0; if (stridecap > 1) { dom.size = (dom0.size + stridecap - 1) / stridecap; dom.name = dom0.name + " [every " + std::to_string(stridecap) + "th]"; dom.exhaustive = false; }
         double tdom = elapsed();
         const uint64_t CH = dom.size > (1ull << 26) ? (1ull << 18) : (dom.size > (1ull << 16) ? (1ull << 12) : 256);
@@ -269,6 +293,7 @@ struct Engine {
             if (stop.load(std::memory_order_relaxed)) break;
             if ((ch & 63) == 0 && elapsed() > deadline_s) { stop = true; break; }
             uint64_t lo = ch * CH, hi = std::min(dom.size, lo + CH);
+            if (!x87_clean()) { std::fprintf(stderr, "glmx: ENGINE ERROR: x87/MMX register state is not empty before a chunk of %s (the compiler emitted MMX moves without emms; drivers are built with -mno-mmx to prevent it) - long double oracles would be poisoned\n", op.name.c_str()); x87_dirty = true; stop = true; break; }
             for (uint64_t i = lo; i < hi; ++i) {
 #ifdef GLMX_SANITIZE
               g_san_reports = 0;
@@ -320,7 +345,7 @@ struct Engine {
     }
 
     // self-replay of every witness (single threaded, from the recorded words)
-    int engine_err = 0;
+    int engine_err = x87_dirty.load() ? 1 : 0;
     auto self = [&](std::map<std::string, Witness>& m) {
       for (auto& kv : m) for (auto& op : ops) if (op.name == kv.second.op) {
         if (kv.second.o.vclass == 80) continue;   // sanitizer reports are de-duplicated per location by the runtime: replay them in a fresh process
@@ -330,12 +355,12 @@ struct Engine {
           std::fprintf(stderr, "glmx: ENGINE ERROR: witness of %s did not replay identically\n", kv.first.c_str()); engine_err = 1; }
       }
     };
-    self(viol); self(known);
-    for (auto& kv : viol) if (kv.second.o.vclass >= 90) { std::fprintf(stderr, "glmx: ENGINE ERROR: oracle self-check failed: %s\n", kv.second.o.msg); engine_err = 1; }
+    if (!foreign) { self(viol); self(known); }
+    if (!foreign) for (auto& kv : viol) if (kv.second.o.vclass >= 90) { std::fprintf(stderr, "glmx: ENGINE ERROR: oracle self-check failed: %s\n", kv.second.o.msg); engine_err = 1; }
     // vacuity guard
     std::string vac;
     for (size_t oi = 0; oi < ops.size(); ++oi) {
-      if (!only.empty() && ops[oi].name.find(only) == std::string::npos) continue;
+      if (!selected(only, ops[oi].name)) continue;
       bool opcomplete = true; for (auto& d : stats[oi].doms) opcomplete = opcomplete && d.complete;
       for (size_t k = 0; k < ops[oi].classes.size(); ++k) if (opcomplete && cap == 0 && stats[oi].cls[k] == 0) {   // class coverage is a property of the full domains, not of a capped sub-lattice
         std::fprintf(stderr, "glmx: ENGINE ERROR: op %s never reached outcome class '%s' (vacuous)\n", ops[oi].name.c_str(), ops[oi].classes[k].c_str());
